@@ -13,6 +13,11 @@ import os
 import vlib
 from vlib import cfg, MV
 
+MANIFEST = dict(technique='TLA+ I-spec TMutex at atomic-operation granularity model-checked by TLC (safety + liveness); complete reachable graph of the REAL mutex under a gate scheduler compared edge-for-edge with the TLC graph; every real transition and seeded random schedules validated by TLC against the P-level trace spec',
+        text='All interleavings of 3-4 goroutines x 2 operations are explored by TLC on the I-spec (Mutex, NoLostWakeup, TryOK, NoStarve, LockReturns). The real tmutex.Mutex is driven through every reachable state/transition at hook granularity (2x2 quick, 3x2 thorough) and its graph must equal the model graph (drift otherwise); the P-level verdict comes from TLC validating the observed call/return/blocked events of every real transition against TraceTMutexProp.',
+        design='5 C18',
+        note='Trusted: Go runtime channels/atomics, the gate scheduler. Hook granularity is coarser than the atomic operations in one place (load+swap of a Lock loop iteration), since hooks are add-only; that interleaving is covered only by the TLC model. Bounded: <=4 goroutines x <=4 operations.')
+
 SPEC = ['tmutex']
 INV = ['Mutex', 'NoLostWakeup', 'TryOK']
 
